@@ -58,6 +58,11 @@ def run(ctx, chk):
                 env[leaf(name)] = val
             else:
                 env[T('discr', leaf(name))] = 1 if val == 'Some' else 0
+        if m.enum_mode:
+            idx = {n: k for k, n in m.state_enum[1].items()}
+            sv = state_by_value.get(fsm)
+            if sv in idx:
+                env[T('discr', m.state_leaf(upd))] = idx[sv]
         if not measured:
             for name in data_fields:
                 v = fields.get(name)
@@ -99,6 +104,9 @@ def run(ctx, chk):
             applied = i['applied'][0] if i['applied'] else None
             src_state = state_by_value.get(fsm)
             nxt = values.get(trans.get(src_state, {}).get(applied)) if applied else fsm
+            stored = i['stores'].get(m.state_field) if m.enum_mode else None
+            if stored is not None and stored[0] == 'agg' and values.get(stored[2]) is not None:
+                nxt = values[stored[2]]
             if nxt is None:
                 nxt = applied
             n_measured = measured or bool(data_fields & set(i['stores']))
@@ -115,8 +123,10 @@ def run(ctx, chk):
             ns = (nxt, n_measured, tuple(sorted(nflags.items())))
             label = '%s[%s]' % (i['msg_name'], applied)
             for ceb in i['records']:
-                form = published_form(ceb[3][5])
-                if form[0] == 'fsm':
+                form = m.published(chk, i, ceb)[:2]
+                if form[0] == 'fsm' and m.enum_mode:
+                    pub = form[1]
+                elif form[0] == 'fsm':
                     pub = nxt
                 elif form[0] == 'const':
                     pub = form[1]
